@@ -298,6 +298,11 @@ class Hist:
         return kind, t, l, n, c
 
     def offs(self, n):
+        # an offset as large as the rectangle (or larger) vacates all of it: a one-line rectangle scrolled vertically,
+        # a one-column rectangle scrolled horizontally, a scroll by the whole height, ...
+        if rng.random() < (0.25 if n <= 1 else 0.10):
+            dist["scroll:offset>=size"] += 1
+            return rng.choice([n, -n, n + 1, -(n + 2), 2 * n, -1 if n == 1 else -n])
         if n <= 1: return 0
         return rng.choice([0, 0, 1, -1, n - 1, -(n - 1), rng.randrange(-(n - 1), n)])
 
@@ -310,9 +315,7 @@ class Hist:
             if d == 0 and r == 0 and rng.random() < 0.85:
                 continue
             x = rng.random() if self.oor else 1.0
-            if x < 0.04:
-                d, r = rng.choice([(n, 0), (0, c), (-n, r), (d, -c - 1), (n + 3, c + 3)]); oor = True
-            elif x < 0.06:
+            if x < 0.03:
                 t, l, n, c = rng.choice([(t, l, n, self.C - l + 2), (t, l, self.L - t + 1, c), (-1, l, n, c), (t, -2, n, c), (t, l, 0, c), (t, l, n, 0)]); oor = True
             else:
                 oor = False
@@ -321,9 +324,17 @@ class Hist:
                 if self.trigger != "onecol":
                     continue
                 dist["trigger:scroll_one_column"] += 1
+            # known finding scroll_one_cell: the single cell at column 0 of a wider terminal, DECSLRM available, scrolled
+            # horizontally (CSI ;1 s is not a valid margin) - only in the dedicated history / probed from the corpus
+            onecell = self.slrm and n == 1 and c == 1 and l == 0 and self.C > 1 and d == 0 and r != 0
+            if onecell and not oor:
+                if self.trigger != "onecol":
+                    continue
+                dist["trigger:scroll_one_cell"] += 1
             if oor:
                 dist["out-of-range"] += 1
             else:
+                if n == 1 and d != 0: dist["scroll:oneline-vertical:slrm=%d" % self.slrm] += 1
                 dist["scroll:" + kind] += 1
                 dist["scroll:" + ("both" if d and r else "vert" if d else "horiz" if r else "none")] += 1
                 # which strategy the driver is expected to pick (measurement only)
@@ -455,6 +466,34 @@ def printf_sweep(lengths, slrm, bufsize=0):
         h.flush()
 
 
+def rv_erase_sweep(slrm):
+    """erasech under reverse video (the print-spaces strategy) of counts around the multiples of the chunk size, on a
+    wide terminal, each after a formatted text longer than a chunk (the driver's scratch buffer is shared with the
+    formatted-output path: what an erase sends must not depend on what is left in it)"""
+    C = rng.choice([200, 210, 256, 300])
+    h = Hist(4, C, slrm, rng.randrange(2), rng.randrange(2))
+    h.fill()
+    for i in range(rng.randrange(4, 8)):
+        n = rng.choice([64, 64, 128, 192, 63, 65, 127, 129, 1, 2, rng.randrange(1, 200)])
+        n = min(n, C - 1)
+        tl = rng.choice([65, 70, 100, 129, 150, 200, rng.randrange(65, 201)])
+        tl = min(tl, C - 1)
+        h.emit(f"goto {i % 4} {rng.randrange(0, C - tl)}", "goto")
+        h.emit("printf " + "".join("%02x" % (0x21 + (i * 11 + j) % 94) for j in range(tl)), "printf")
+        if i == 0 or rng.random() < 0.4:
+            bg = rng.choice([None, 1, 4, 12, 200])
+            h.emit(rng.choice(["setpen", "chpen"]) + " rv=1" + (f" bg={bg}" if bg is not None else ""), "setpen")
+            h.rv = True; h.pen_default = False
+        col = rng.choice([0, 0, 1, rng.randrange(0, C - n)])
+        if col + n >= C: col = 0
+        me = rng.choice([1, -1, 1, -1, 0]) if n <= 64 else rng.choice([1, -1])
+        h.emit(f"goto {(i + 1) % 4} {col}", "goto")
+        h.emit(f"erasech {n} {me}", "erasech")
+        dist["rv-erase-sweep:" + ("64k" if n % 64 == 0 else "other")] += 1
+        if me == 1:
+            h.emit("erasech 1 0", "erasech")       # cursor-relative: shows where the cursor ended
+
+
 def order_history():
     """an output buffer smaller than a text, with a positioning / erase / pen change still pending in it"""
     L, C = rng.randrange(2, 6), rng.randrange(8, 90)
@@ -505,6 +544,33 @@ def exhaustive():
                     if (n % 3) == 0: h.emit("setpen bg=%d" % (n % 16), "setpen")
                     h.emit("scroll %d %d %d %d %d %d" % cs, "scroll"); n += 1
     dist["exhaustive:scroll"] = n
+    # offsets as large as the rectangle or one larger, in either or both directions (everything is vacated, or the
+    # scroll is refused), every rectangle of a 3x3 screen, with and without DECSLRM
+    v = 0
+    for slrm in (0, 1):
+        L, C = 3, 3
+        cases = []
+        for t in range(L):
+            for b in range(t + 1, L + 1):
+                for l in range(C):
+                    for r in range(l + 1, C + 1):
+                        nl, nc = b - t, r - l
+                        for d in range(-(nl + 1), nl + 2):
+                            for rt in range(-(nc + 1), nc + 2):
+                                if abs(d) < nl and abs(rt) < nc:
+                                    continue
+                                if slrm and nc == 1 and d != 0 and (l > 0 or r < C):
+                                    continue       # former known finding scroll_one_column
+                                if slrm and nl == 1 and nc == 1 and l == 0 and d == 0 and rt != 0:
+                                    continue       # known finding scroll_one_cell (probed from the corpus)
+                                cases.append((t, l, nl, nc, d, rt))
+        for i in range(0, len(cases), 6):
+            h = Hist(L, C, slrm, 0, 0)
+            for cs in cases[i:i + 6]:
+                h.fill()
+                if (v % 3) == 0: h.emit("setpen bg=%d" % (v % 16), "setpen")
+                h.emit("scroll %d %d %d %d %d %d" % cs, "scroll"); v += 1
+    dist["exhaustive:scroll-big-offsets"] = v
     # every DECRPM reply value for mode 69 (2 only while it is not the known finding slrm_probe_reset: probed from the
     # corpus) x every rectangle and offset on a 3x3 screen; replies for modes 25 / 12 run through 0..4 alongside
     p = 0
@@ -649,6 +715,8 @@ else:
     for _ in range(3 if a.tier == "quick" else 12):
         printf_sweep([rng.choice([0, 1, 31, 32, 33, 62, 63, 64, 65, 66, 127, 128, 129, 191, 192, 193, 200, rng.randrange(0, 201)]) for _ in range(14)],
                      rng.choice([0, 1]), rng.choice([1, 7, 16, 63, 64, 65, 100, 128, 129, 256, 300, rng.randrange(1, 301)]))
+    for _ in range(6 if a.tier == "quick" else 40):
+        rv_erase_sweep(rng.choice([0, 1]))
     for _ in range(25 if a.tier == "quick" else 150):
         order_history()
     for _ in range(nh):
